@@ -6,6 +6,11 @@ TRUSTED = ['MPI is deadlock-free when all ranks issue the same sequence of colle
 ASSUMPTIONS = ['sufficient condition checked per function: the sequence of collective MPI calls does not depend on rank-local outcomes (errors, zero-length requests)']
 EXPLANATION = 'ghost collective trace of the MPI model: functions enforced against "collectives issued whatever the local outcome" clauses (C08_*)'
 
+def close_files_job(prop):
+    return Job('%s/ncmpio_close_files' % prop, prop, ['src/drivers/ncmpio/ncmpio_close.c', 'src/drivers/common/error_mpi2nc.c'], 'C08_close_files.c', enforce='ncmpio_close_files',
+               canaries=['removed', 'failed_removal_still_synchronised', 'independent_close_failed_collective_still_closed'], unwind=8, kind='proof', timeout=300,
+               assumptions=['ncmpio_close_files: MPI_File_close / MPI_File_delete / MPI_Barrier are harness stubs recording the call sequence, each may fail; process count 1..4 symbolic'])
+
 def jobs(tier, ws):
     js = [j for j in C05.jobs(tier, ws, prop='C08') if 'stride0' in j.name or 'sync_numrecs' in j.name or 'write_numrecs' in j.name]
     js += [j for j in C11.jobs(tier, ws, prop='C08') if 'read_write' in j.name]
@@ -17,4 +22,6 @@ def jobs(tier, ws):
                   enforce='attr_getput.c:check_consistency_put', extra_src=['stubs/mpi_model.c'], canaries=['consistent_with_values', 'consistent_empty', 'length_disagreement', 'early_agreed_error'],
                   unwind=26, kind='bounded', timeout=600, bound='names <= 3 characters, attributes <= 2 elements; rank, process count, local arguments symbolic',
                   assumptions=['MPI_Bcast of a scalar delivers the agreed (root) value; a broadcast character buffer is NUL-terminated']))
+    if True:
+        js.append(close_files_job('C08'))
     return js
